@@ -10,7 +10,7 @@ from .store_replay import replay
 from .tlc import account, run_tlc
 
 INVARIANTS = ['TypeOK', 'NoForeignValue', 'StoreSound', 'HeldOnlyOwn', 'RunsJustified', 'AtMostOnce']
-PROPERTIES = ['OnlyOnDemand', 'RunOnlyIfNeeded', 'AddChainKeeps', 'NoDoubleRun', 'ForceExact', 'MultiForceAll', 'ForcedRuns', 'UnforcedLoads', 'RequestDelivers',
+PROPERTIES = ['OnlyOnDemand', 'RunOnlyIfNeeded', 'AddChainKeeps', 'NoDoubleRun', 'ForceExact', 'MultiForceAll', 'ForcedRuns', 'ForcedExactlyOnce', 'UnforcedLoads', 'RequestDelivers',
               'FailLeavesNothing']
 
 
